@@ -71,7 +71,8 @@ ASSUMPTIONS = ['a PathNamer constructed directly gets os_type "unix" or "windows
                '"control character" is read as the C0 range 0..31 (what the code and DESIGN.md test); DEL and the '
                'C1 range are not escaped when ascii is off',
                'the url handed to get_filename begins with "<scheme>://" (URLInfo.url of a network scheme)']
-UNPROVED = []
+UNPROVED = ['totality of PathNamer.get_filename on canonical URLs (a path is chosen for EVERY URL) is checked by the oracle only '
+            '(kind namer-raises); known finding: unencoded [ ] in the userinfo make urlsplit refuse URLInfo.url']
 
 PID = 'C15'
 
@@ -520,6 +521,10 @@ def stream_safe(ctx, real, cases):
         case = {'stream': 'safe', 'cfg': cfg, 'name': name}
         if realtok != rep and not ctxdep:
             ctx.disagree('safe', case, rep, realtok)
+        if exc is not None and not any(0xD800 <= ord(c) <= 0xDFFF for c in name):
+            # a path has to be CHOSEN for every name that is text; only a lone surrogate may be refused
+            ctx.fail('namer-raises', 'safe_filename', dict(case, prior_settings=real.prior(n_prior)),
+                     'safe_filename(%r, %s) raises %s' % (name, safe_kw(cfg), exc))
         if exc is None and oracle_applies(cfg) and name != '':
             p = component_problem(out, cfg)
             if p is None and cfg['os_type'] == 'windows' and any(c in WINCHARS for c in out):
@@ -602,6 +607,16 @@ def stream_name(ctx, real, cases, stream='name'):
             rep = ' '.join(rep.split(' ')[:2])
         if realtok != rep and not ctxdep:
             ctx.disagree(stream, case, rep, realtok)
+        if exc is not None and stream == 'name' and scheme in ('http', 'https', 'ftp'):
+            # cause, not input: does the interpreter's urlsplit itself refuse URLInfo.url?
+            where = 'get_filename'
+            try:
+                urllib.parse.urlsplit(url)
+            except ValueError as e:
+                where = 'urlsplit'
+                exc = '%s (%s)' % (exc, e)
+            ctx.fail('namer-raises', where, dict(case, prior_settings=real.prior(n_prior)),
+                     'get_filename(%r) raises %s: no local path is chosen for a URL that parses' % (url, exc))
         if exc is None and stream == 'name' and oracle_applies(cfg) and scheme in ('http', 'https', 'ftp'):
             p = containment_problem(path, cfg['root'], cfg)
             if p:
@@ -726,6 +741,9 @@ def stream_cd(ctx, real, cases):
             mname = rep.split(' ')[2] if len(rep.split(' ')) > 2 else '?'
             if mname != '=' + enc(ins[0]):
                 ctx.disagree('cd-name', case, mname, '=' + enc(ins[0]))
+        if exc is not None:
+            ctx.fail('namer-raises', 'content_disposition', dict(case, prior_settings=real.prior(n_prior)),
+                     'the Content-Disposition rename raises %s' % exc)
         if exc is None and cur and out != cur and oracle_applies(cfg):
             d = posixpath.dirname(cur)
             comp = out[len(d):].lstrip('/') if out.startswith(d) else None
@@ -794,9 +812,14 @@ def check_writer(ctx, real, scratch, case):
         final = session._filename
         outcome = 'ok'
     except Exception as e:
-        outcome = exc_name(e)
+        outcome = 'OSError' if type(e).__name__ in ('ProtocolError', 'OSError', 'IOError') else exc_name(e)
+        err = repr(e)
         chosen = final = None
     ctx.case(key, tags=['writer:' + wname, 'writer:' + outcome] + ['writer:' + o for o in obstacles])
+    if outcome not in ('ok', 'OSError'):        # OSError / ProtocolError: "Server not able to continue file download"
+        ctx.fail('namer-raises', 'writer_session', dict(case, prior_settings=prior),
+                 'the writer session raises %s: no local path is chosen' % err.replace(scratch, '<scratch>'))
+        return
     if not oracle_applies(ncfg):
         return
     for what, path in [('chosen', chosen), ('final', final)] + [('opened', p) for p in opened]:
@@ -1123,8 +1146,13 @@ def check_argv(ctx, real, scratch, case, pending):
         final = session._filename
         outcome = 'ok'
     except Exception as e:
-        outcome = exc_name(e)
+        outcome = 'OSError' if type(e).__name__ in ('ProtocolError', 'OSError', 'IOError') else exc_name(e)
+        err = repr(e)
         chosen = final = None
+    if outcome not in ('ok', 'OSError'):
+        ctx.fail('namer-raises', 'argv_writer', dict(case),
+                 'wpull %s: the writer session raises %s: no local path is chosen'
+                 % (' '.join(argv).replace(scratch, '<scratch>'), err.replace(scratch, '<scratch>')))
     ctx.case(key, tags=['argv:' + type(writer).__name__, 'argv:' + outcome, 'argv:os=' + os_real,
                         'argv:modes=%s' % ('absent' if not case['modes'] else len(modes))])
     if args.default_page == '':
